@@ -215,6 +215,12 @@ func CreateAuthenticators(cfg AuthConfig) []Authenticator {
 			// Fall back to plaintext credentials (deprecated)
 			creds := StaticCredentials(cfg.Users)
 			auths = append(auths, NewUserPassAuthenticator(creds))
+		} else {
+			// Authentication is enabled but no usable user is configured.
+			// Keep the username/password method over an empty store (every
+			// credential is rejected): an empty authenticator list would be
+			// turned into "no authentication" by NewHandler / NewServer.
+			auths = append(auths, NewUserPassAuthenticator(StaticCredentials{}))
 		}
 	}
 
